@@ -132,7 +132,8 @@ type WireReader struct {
 }
 
 func (r *WireReader) nextSeg() bool {
-	if r.seg < len(r.wire) && r.pos >= len(r.wire[r.seg]) {
+	// (a wire may hold empty segments: step over all of them)
+	for r.seg < len(r.wire) && r.pos >= len(r.wire[r.seg]) {
 		r.seg++
 		r.pos = 0
 	}
@@ -140,8 +141,11 @@ func (r *WireReader) nextSeg() bool {
 }
 
 func (r *WireReader) Read(b []byte) (int, error) {
-	if !r.nextSeg() && len(b) > 0 {
-		return 0, io.EOF
+	if !r.nextSeg() {
+		if len(b) > 0 {
+			return 0, io.EOF
+		}
+		return 0, nil
 	}
 	n := copy(b, r.wire[r.seg][r.pos:])
 	r.pos += n
@@ -158,7 +162,7 @@ func (r *WireReader) ReadByte() (byte, error) {
 }
 
 func (r *WireReader) UnreadByte() error {
-	if r.pos == 0 {
+	for r.pos == 0 {
 		if r.seg == 0 {
 			return errors.New("encoding.WireReader.UnreadByte: negative position")
 		}
